@@ -46,11 +46,35 @@ theorem wfBridge_of_lexWF : (e : PExpr) → lexWF (erase e) = true → wfBridge 
   | .index _ e _ i, h => by
     simp only [erase, lexWF, Bool.and_eq_true] at h
     simp only [wfBridge, wfBridge_of_lexWF e h.1, wfBridge_of_lexWF i h.2, Bool.and_self]
+  | .caseE _ _ o _ c t ws el, h => by
+    simp only [erase, lexWF, Bool.and_eq_true] at h
+    simp only [wfBridge, wfBridgeO_of_lexWFo o h.1.1.1.1, wfBridge_of_lexWF c h.1.1.1.2, wfBridge_of_lexWF t h.1.1.2,
+      wfBridgeW_of_lexWFw ws h.1.2, wfBridgeO_of_lexWFo el h.2, Bool.and_self]
+  | .ifE _ _ c t e, h => by
+    simp only [erase, lexWF, Bool.and_eq_true] at h
+    simp only [wfBridge, wfBridge_of_lexWF c h.1.1, wfBridge_of_lexWF t h.1.2, wfBridge_of_lexWF e h.2, Bool.and_self]
+  | .cast _ _ e path, h => by
+    simp only [erase, lexWF, List.isEmpty_map, List.all_map, Bool.and_eq_true] at h
+    simp only [wfBridge, wfBridge_of_lexWF e h.1, Bool.true_and, Bool.and_eq_true]
+    exact ⟨h.2.1, h.2.2⟩
+  | .array _ _ es, h => by
+    simp only [erase, lexWF] at h
+    simp only [wfBridge, wfBridges_of_lexWFs es h]
 theorem wfBridges_of_lexWFs : (es : PExprs) → lexWFs (erases es) = true → wfBridges es = true
   | .nil, _ => rfl
   | .cons e es, h => by
     simp only [erases, lexWFs, Bool.and_eq_true] at h
     simp only [wfBridges, wfBridge_of_lexWF e h.1, wfBridges_of_lexWFs es h.2, Bool.and_self]
+theorem wfBridgeW_of_lexWFw : (ws : PWhens) → lexWFw (eraseW ws) = true → wfBridgeW ws = true
+  | .nil, _ => rfl
+  | .cons _ c t ws, h => by
+    simp only [eraseW, lexWFw, Bool.and_eq_true] at h
+    simp only [wfBridgeW, wfBridge_of_lexWF c h.1.1, wfBridge_of_lexWF t h.1.2, wfBridgeW_of_lexWFw ws h.2, Bool.and_self]
+theorem wfBridgeO_of_lexWFo : (o : POExpr) → lexWFo (eraseO o) = true → wfBridgeO o = true
+  | .none, _ => rfl
+  | .some _ e, h => by
+    simp only [eraseO, lexWFo] at h
+    simp only [wfBridgeO, wfBridge_of_lexWF e h]
 end
 
 /-- trees built by `parsePTop` from lexer tokens satisfy the precondition of the bridge -/
